@@ -9,7 +9,7 @@ from ..cfg import NORMAL, Node, handler_classes
 from ..core import Ctx
 from ..flow import ALL, find_path, names_in
 from ..model import AnalysisError, FunctionInfo, dotted, norm_text
-from .common import edge_target, resolve_value, judged_in_callers, effective_returns, handler_exits, handler_nodes, in_handler, in_try_body, kwarg, reachable_from
+from .common import edge_target, facts_at, resolve_value, judged_in_callers, effective_returns, handler_exits, handler_nodes, in_handler, in_try_body, kwarg, reachable_from
 
 EXPLANATION = (
     "Static analysis of the pruning decision: (R1) ORDER-TYPE abstract interpretation - _file_may_match touches file_min, "
@@ -561,6 +561,32 @@ def r4(ctx: Ctx) -> None:
                     chain.append(norm_text(r_.elts[ci]))
                 payloads.append(_fn_kind(fns[0]).replace("_identity(value)", "value"))
         payloads = ["value" if p_ == "value" else p_ for p_ in payloads]
+    if not written:
+        # flow form: the payload dict is built once from per-branch locals (`tag, v = "int", value` ... `json.dumps({"t": tag,
+        # "v": v})`): every definition of the "t" entry that reaches the return is a constant set under one isinstance test
+        g_e = ctx.cfg(enc)
+        for r, rv in effective_returns(ctx, enc):
+            arg0 = rv.args[0] if isinstance(rv, ast.Call) and (dotted(rv.func) or "").endswith("dumps") and rv.args else rv
+            for src, sat in resolve_value(ctx, enc, arg0, r.id):
+                if not isinstance(src, ast.Dict):
+                    continue
+                ent = {k.value: v for k, v in zip(src.keys, src.values) if isinstance(k, ast.Constant)}
+                if "t" not in ent or "v" not in ent:
+                    continue
+                for tsrc, tsat in resolve_value(ctx, enc, ent["t"], sat):
+                    if not (isinstance(tsrc, ast.Constant) and isinstance(tsrc.value, str)):
+                        written["?" + (norm_text(tsrc) if tsrc is not None else "unresolved")] = "?"
+                        continue
+                    tests = [e_ for pol, e_, _fa in facts_at(ctx, enc, g_e.nodes[tsat]) if pol == "true" and isinstance(e_, ast.Call)
+                             and (dotted(e_.func) or "") == "isinstance" and len(e_.args) == 2]
+                    cls = norm_text(tests[-1].args[1]) if tests else "?"
+                    if str(tsrc.value) in written and written[str(tsrc.value)] != cls and not tests:
+                        continue  # the fallback branch (`else: "str", str(value)`) re-uses a tag
+                    written.setdefault(str(tsrc.value), cls) if not tests else written.__setitem__(str(tsrc.value), cls)
+                for vsrc, _vs in resolve_value(ctx, enc, ent["v"], sat):
+                    payloads.append(norm_text(vsrc) if vsrc is not None else "?")
+        if written:
+            chain = _isinstance_chain(enc, "value")
     read: Dict[str, str] = {}
     for n in ast.walk(dec.node):
         if isinstance(n, ast.If) and isinstance(n.test, ast.Compare) and isinstance(n.test.comparators[0], ast.Constant) \
@@ -750,6 +776,21 @@ def r5r6(ctx: Ctx) -> None:
         k_name = any(isinstance(c, ast.Call) and c.args and isinstance(c.args[0], ast.Constant) and c.args[0].value == "name" for c in ko["calls"])
         v_id = any(isinstance(c, ast.Call) and c.args and isinstance(c.args[0], ast.Constant) and c.args[0].value == "id" for c in vo["calls"])
         ok = ok and k_name and v_id
+    if not maps:
+        # comprehension form: {f.get("name"): f.get("id") for f in schema.fields if ...} - key and value read the SAME field
+        def _reads(e: ast.AST, what: str) -> set:
+            out_ = set()
+            for x in ast.walk(e):
+                if isinstance(x, ast.Call) and isinstance(x.func, ast.Attribute) and x.func.attr == "get" and x.args \
+                        and isinstance(x.args[0], ast.Constant) and x.args[0].value == what and isinstance(x.func.value, ast.Name):
+                    out_.add(x.func.value.id)
+                if isinstance(x, ast.Subscript) and isinstance(x.slice, ast.Constant) and x.slice.value == what and isinstance(x.value, ast.Name):
+                    out_.add(x.value.id)
+            return out_
+        comps = [x for x in ast.walk(pr.node) if isinstance(x, ast.DictComp) and len(x.generators) == 1
+                 and isinstance(x.generators[0].target, ast.Name) and norm_text(x.generators[0].iter).endswith(".fields")]
+        ok = bool(comps) and all(c.generators[0].target.id in _reads(c.key, "name") and c.generators[0].target.id in _reads(c.value, "id")  # type: ignore[attr-defined]
+                                 and not _reads(c.key, "id") and not _reads(c.value, "name") for c in comps)
     ctx.ob("C13.R5", pr, "lookup map is name -> id of the same field", None, ok, "col_name_to_id[field_name] = field_id")
     fm = ctx.fn("filters._file_may_match")
     R = pruning_roles(ctx, fm)
